@@ -29,6 +29,7 @@ type Prog struct {
 	SSAPkgs map[string]*ssa.Package
 	Config  string // description of the build configuration
 	Errors  []string
+	Overlay map[string][]byte // in-memory file contents used instead of the files on disk (self-test mutants)
 }
 
 type Options struct {
@@ -77,7 +78,7 @@ func Load(o Options) (*Prog, error) {
 	if len(pkgs) == 0 {
 		return nil, fmt.Errorf("no packages loaded for %v in %s", o.Patterns, o.Dir)
 	}
-	p := &Prog{Dir: o.Dir, Fset: fset, Pkgs: pkgs, ByPath: map[string]*packages.Package{}, SSAPkgs: map[string]*ssa.Package{}}
+	p := &Prog{Dir: o.Dir, Fset: fset, Pkgs: pkgs, ByPath: map[string]*packages.Package{}, SSAPkgs: map[string]*ssa.Package{}, Overlay: o.Overlay}
 	p.Config = strings.Join(o.Env, " ")
 	if p.Config == "" {
 		p.Config = "host"
@@ -256,4 +257,12 @@ func (p *Prog) HasFile(rel string) bool {
 		}
 	}
 	return false
+}
+
+// ReadFile reads a file of the analysed tree, honouring the overlay.
+func (p *Prog) ReadFile(path string) ([]byte, error) {
+	if b, ok := p.Overlay[path]; ok {
+		return b, nil
+	}
+	return os.ReadFile(path)
 }
